@@ -150,3 +150,22 @@ void h_combine_reconstructs_t2(void)
   __CPROVER_assert(r._[g] == in_secret._[g], "any two shares of a threshold-2 sharing reconstruct the secret");
   CANARY_POINT();
 }
+
+/* evaluate_polynomial (what split computes per share and byte) against the polynomial over the carry-less specification product:
+   p(x) = c0 + c1 x + c2 x^2 (+ c3 x^3), for every x, constant term and coefficients (degree <= DEG) */
+#ifndef DEG
+#define DEG 2
+#endif
+void h_evalpoly(void)
+{
+  arr_u8_512 e = crypto__build_exp_table();
+  arr_u8_256 l = crypto__build_log_table(&e);
+  uint8_t in_x, in_c0; static uint8_t in_c[DEG + 1]; uint64_t in_deg; __CPROVER_assume(in_deg <= DEG);
+  { uint8_t a[DEG + 1]; for (int k = 0; k <= DEG; ++k) in_c[k] = a[k]; }
+  vec_u8 co; co.p = in_c; co.n = in_deg; co.cap = DEG + 1;
+  uint8_t got = crypto__evaluate_polynomial(in_x, in_c0, &co, &e, &l);
+  uint8_t want = in_c0, pw = 1;
+  for (uint64_t k = 0; k < DEG; ++k) if (k < in_deg) { pw = spec_gf_mul(pw, in_x); want ^= spec_gf_mul(in_c[k], pw); }
+  __CPROVER_assert(got == want, "evaluate_polynomial is the polynomial c0 + c1 x + c2 x^2 + ... over GF(2^8) (the shares split hands out are points of that polynomial)");
+  CANARY_POINT();
+}
